@@ -72,6 +72,8 @@ Definition take_tzinfos (a : list Z) : option (tzinfos * list Z) :=
   | _ => None
   end.
 
+Definition zopt (has v : Z) : option Z := if z2b has then Some v else None.
+
 Definition okw (z : Z) : option bool := if z =? 2 then None else Some (z2b z).
 
 (* [fuzzy; fwt; dayfirst(0|1|2=None); yearfirst; info_dayfirst; info_yearfirst; ignoretz; cur_year;
@@ -94,7 +96,7 @@ Definition take_opts (a : list Z) : option (opts * list Z) :=
 Definition enc_exn (e : exn) : Z :=
   match e with
   | IndexError => 1 | ValueError => 2 | OverflowError => 3 | AssertionError => 4 | TypeError => 5
-  | UnboundLocalError => 6 | OutOfFuel => 7
+  | UnboundLocalError => 6 | OutOfFuel => 7 | ValueErrorNoStr => 8
   end.
 
 Definition enc_zone (z : zone) : list Z :=
@@ -124,6 +126,26 @@ Definition enc_opt3 (t : option Z * option Z * option Z) : list Z :=
   let e (o : option Z) := match o with Some v => [1; v] | None => [0; 0] end in
   let '(a, b, c) := t in e a ++ e b ++ e c.
 
+Definition dec_dform (n : Z) : dform :=
+  match n with
+  | 0 => DNone | 1 => DIso | 2 => DCompact | 3 => DSlashYMD | 4 => DUS | 5 => DEU | 6 => DEUDot
+  | 7 => DMonDY | 8 => DMonthDY | 9 => DDMonY | 10 => DDMonthY | 11 => DDashMon | 12 => DYY | _ => DUSYY
+  end.
+Definition dec_joiner (n : Z) : joiner := match n with 0 => JT | 1 => JSpace | _ => JNone end.
+Definition dec_tform (n k fl : Z) : tform :=
+  match n with
+  | 0 => TNone | 1 => THM | 2 => THMS | 3 => TFrac (Z.to_nat k) (z2b fl) | 4 => TCompactHM | 5 => TCompactHMS
+  | 6 => T12HM (z2b fl) | 7 => T12HMS (z2b fl) | 8 => T12H (z2b fl) | _ => TWords
+  end.
+Definition dec_oform (n : Z) : oform :=
+  match n with 0 => ONone | 1 => OZ | 2 => OUTC | 3 => OGMT | 4 => OHHMM | 5 => OHH_MM | _ => OHH end.
+Definition dec_template (kd df j tf k fl ofm : Z) : template :=
+  match kd with
+  | 0 => TDT (dec_dform df) (dec_joiner j) (dec_tform tf k fl) (dec_oform ofm)
+  | 1 => TCtime
+  | _ => TRfc (dec_oform ofm)
+  end.
+
 (* entries
    0  timelex(s)                      [s..] -> [ntok; (len; chars..)..]
    1  parser.parse(s, opts)           [opts..; s..] -> outcome
@@ -146,7 +168,51 @@ Definition dispatch (n : Z) (args : list Z) : list Z :=
              | _ => [0]
              end
          | None => [-1] end
-  | _ => spec_dispatch n args
+  | 10 =>
+      match args with
+      | [hy; y; hmo; mo; hd; d; hh; h; hmi; mi; hs; s; hus; us; hwd; wd; dy; dmo; dd; dh; dmi; ds; dus] =>
+        match spec_fill (zopt hy y) (zopt hmo mo) (zopt hd d) (zopt hh h) (zopt hmi mi) (zopt hs s)
+                        (zopt hus us) (zopt hwd wd) (mkDt dy dmo dd dh dmi ds dus) with
+        | FillOk r => 0 :: enc_dt r
+        | FillInvalid => [1]
+        | FillOverflow => [2]
+        end
+      | _ => [-1]
+      end
+  | 11 =>
+      (* [opts..; has_name; len; name..; has_off; off; posix_form] *)
+      match take_opts args with
+      | Some (o, hn :: r) =>
+          match take_str r with
+          | Some (nm, [ho; off; pf]) =>
+              match spec_zone (o_tzinfos o) (o_local o) (o_nm0 o || o_nm1 o)
+                              (if z2b hn then Some nm else None) (zopt ho off) (z2b pf) with
+              | ZR z w => [0; b2z w] ++ enc_zone z
+              | ZROverflow => [2]
+              | ZRTypeError => [3; 5]
+              end
+          | _ => [-1]
+          end
+      | _ => [-1]
+      end
+  | 20 =>
+      (* [kind; dform; joiner; tform; k; flag; oform; y; mo; d; h; mi; s; us; offpos; offh; offm;
+          default x7; cur_year]
+         -> [wf; guard; dayfirst; yearfirst; n; text..; expected dt x7; has_off; off] *)
+      match args with
+      | [kd; df; j; tf; k; fl; ofm; y; mo; d; h; mi; s; us; op; oh; om; dy; dmo; dd; dh; dmi; ds; dus; cy] =>
+          let t := dec_template kd df j tf k fl ofm in
+          let dt := mkDt y mo d h mi s us in
+          let o := mkOff (z2b op) oh om in
+          let dfl := mkDt dy dmo dd dh dmi ds dus in
+          let txt := render t dt o in
+          let '(dayf, yearf) := flags_of t in
+          [b2z (wf_template t && wf_off o && valid_dt dt && valid_dt dfl); b2z (guard_year t cy dt);
+           b2z dayf; b2z yearf] ++ enc_str txt ++ enc_dt (expected_dt t dt dfl)
+          ++ (match expected_off t o with Some v => [1; v] | None => [0; 0] end)
+      | _ => [-1]
+      end
+  | _ => [-1]
   end.
 
 Extraction "model.ml" dispatch.
